@@ -718,6 +718,11 @@ func (g *gen) comment(label string) string {
 	if g.o.MultiByte && rapid.IntRange(0, 2).Draw(t, label+"MB") == 0 {
 		return rapid.SampledFrom([]string{"注释 comment", "héllo wörld", "→ see ☂ below", "данные"}).Draw(t, label+"MBText")
 	}
+	if rapid.IntRange(0, 5).Draw(t, label+"Decoy") == 0 {
+		if name := g.anyMethodName(); name != "" {
+			return "see " + name + "(1)"
+		}
+	}
 	return rapid.SampledFrom([]string{"plain remark", "x.call() is not a call", "new Foo() in a comment", "import nothing.here;", "42"}).Draw(t, label+"Text")
 }
 
